@@ -84,6 +84,27 @@ def read_header(filename):
     return header_dict
 
 
+def get_header_size(header_dict):
+    """
+    Return size of a block header in bytes, including the END line and, if 
+    DIRECTIO is set, the zero padding up to the next multiple of 512 bytes.
+    
+    Parameters
+    ----------
+    header_dict : dict
+        Dictionary of header key, value pairs
+        
+    Returns
+    -------
+    header_size : int
+        Header size in bytes
+    """
+    header_size = 80 * (len(header_dict) + 1)
+    if int(header_dict.get('DIRECTIO', 0)) != 0:
+        header_size = int(512 * np.ceil(header_size / 512))
+    return header_size
+
+
 def get_stem(filename):
     """
     Extract RAW stem from RAW filename.
@@ -156,7 +177,7 @@ def get_blocks_in_file(filename):
     header = read_header(filename)
     with open(filename, "rb") as f:
         count = 0
-        block_read_size = int(512 * np.ceil((80 * (len(header) + 1)) / 512)) + int(header['BLOCSIZE'])
+        block_read_size = get_header_size(header) + int(header['BLOCSIZE'])
         while f.read(block_read_size):
 #             chunk = f.read(block_read_size)
 #             if len(chunk) == 0:
@@ -211,7 +232,7 @@ def get_dists(filename):
     header = read_header(filename)
     with open(filename, "rb") as f:
         i = 0
-        header_size = int(512 * np.ceil((80 * (len(header) + 1)) / 512))
+        header_size = get_header_size(header)
         f.read(header_size)
         
         block_size = int(header['BLOCSIZE'])
